@@ -402,6 +402,9 @@ func cliDiagnostics(meta *common.Meta, dir string, pkgs []*fw.Pkg, ems map[strin
 			args = append(args, "./checkers/testdata/"+p.Name)
 		}
 		out, code, err := common.Run(300*time.Second, dir, common.GoEnv(), filepath.Join(common.BinDir(), "go-critic"), args...)
+		if fw.IsTimeout(err) { // retried once with a longer limit; see fw.RunPatient
+			out, code, err = common.Run(900*time.Second, dir, common.GoEnv(), filepath.Join(common.BinDir(), "go-critic"), args...)
+		}
 		if err == nil && code != 0 && code != 1 {
 			err = fmt.Errorf("exit %d: %s", code, clipStr(out, 300))
 		}
@@ -409,6 +412,13 @@ func cliDiagnostics(meta *common.Meta, dir string, pkgs []*fw.Pkg, ems map[strin
 	})
 	res := map[string][]wkey{}
 	for i := range batches {
+		if fw.IsTimeout(errs[i]) {
+			meta.Notes = append(meta.Notes, "CLI-level stage: go-critic check on "+dir+" hit the wall-clock limit twice (no observation, not a verdict): "+errs[i].Error())
+			for _, p := range batches[i] {
+				res["\x00unobserved/"+p.Name] = []wkey{}
+			}
+			continue
+		}
 		if errs[i] != nil {
 			meta.TieBroken = append(meta.TieBroken, "go-critic check on "+dir+" did not finish normally: "+errs[i].Error())
 			continue
@@ -446,6 +456,12 @@ func cliLevel(meta *common.Meta, name, mod string, s1 []*fw.Pkg, ems map[string]
 	files, withDiag := 0, 0
 	for _, p := range s1 {
 		if _, ex := Exempt[p.Name]; ex {
+			continue
+		}
+		if _, u := got["\x00unobserved/"+p.Name]; u {
+			continue
+		}
+		if _, u := cliBase["\x00unobserved/"+p.Name]; u {
 			continue
 		}
 		for _, f := range p.Files {
@@ -762,6 +778,7 @@ func Run(tier string, seed int64, outDir string) *common.Meta {
 	evals, distinct, variants, expectChecked, exemptSkipped := 0, 0, 0, 0, 0
 	perTransform := map[string]int{}
 	typeErrs := map[string]int{}
+	lw := newLaws(infos)
 	for round := 0; round < rounds; round++ {
 		for ti, tr := range transforms {
 			if round > 0 && (tr.name == "identity" || tr.name == "append-decls" || tr.name == "reverse-funcs") {
@@ -810,11 +827,22 @@ func Run(tier string, seed int64, outDir string) *common.Meta {
 					}
 				}
 			}
+			lawItems := map[string]*lawItem{}
+			var lawOrder []*lawItem
 			runAll(pkgs, fset, func(f *fw.File, ci int, o fw.Outcome) {
 				fb := bases[f.ID()]
 				em := ems[f.ID()]
 				if fb == nil || em == nil || !okPkg[f.Pkg.Name] {
 					return
+				}
+				if v, ok := lw.byIdx[ci]; ok {
+					it := lawItems[f.ID()]
+					if it == nil {
+						it = &lawItem{orig: fb.f, tf: f, em: em, real: map[string]fw.Outcome{}}
+						lawItems[f.ID()] = it
+						lawOrder = append(lawOrder, it)
+					}
+					it.real[v.Name] = o
 				}
 				info := infos[ci]
 				if ci == 0 {
@@ -906,6 +934,12 @@ func Run(tier string, seed int64, outDir string) *common.Meta {
 				}
 			})
 			_ = ti
+			// model execution on the converted transformed files + the laws in evaluated form (model.go)
+			if round == 0 {
+				lw.write(meta, outDir, tr.name, lawOrder)
+			} else {
+				lw.write(meta, outDir, fmt.Sprintf("%s-r%d", tr.name, round), lawOrder)
+			}
 			if tr.name == "dangerous-docs" || (tier == "thorough" && tr.name != "identity") {
 				cliLevel(meta, tr.name, mod, base[:nS1], ems, cliBase)
 			}
